@@ -51,6 +51,8 @@ MaxOf(S) == CHOOSE m \in S : \A o \in S : o <= m
 MinOf(S) == CHOOSE m \in S : \A o \in S : m <= o
 
 Has(f, off, n) == off >= 0 /\ n >= 0 /\ off + n <= Len(f)
+\* the same questions asked of the prefix of length L of f (no copy of the prefix is made)
+HasN(L, off, n) == off >= 0 /\ n >= 0 /\ off + n <= L
 RdLE16(f, off) == f[off + 1] + 256 * f[off + 2]
 RdLE32(f, off) == f[off + 1] + 256 * f[off + 2] + 65536 * f[off + 3] + 16777216 * f[off + 4]
 RdBE16(f, off) == 256 * f[off + 1] + f[off + 2]
@@ -58,6 +60,7 @@ RdBE32(f, off) == 16777216 * f[off + 1] + 65536 * f[off + 2] + 256 * f[off + 3] 
 Slice(f, off, n) == SubSeq(f, off + 1, off + n)
 \* the NUL-terminated byte string at off (without the NUL)
 HasCStr(f, off) == off >= 0 /\ \E k \in off..(Len(f) - 1) : f[k + 1] = 0
+HasCStrN(f, L, off) == off >= 0 /\ \E k \in off..(L - 1) : f[k + 1] = 0
 CStr(f, off) ==
   LET e == CHOOSE k \in off..(Len(f) - 1) : f[k + 1] = 0 /\ \A j \in off..(k - 1) : f[j + 1] # 0
   IN Slice(f, off, e - off)
@@ -78,9 +81,11 @@ SjisName(name) == Concat([k \in 1..Len(name) |-> SjisOf(name[k])])
 Utf8Name(name) == Concat([k \in 1..Len(name) |-> Utf8Of(name[k])])
 
 \* ------------------------------------------------------------------ values
+\* power-of-two sides from 8 up (the statement), as far as the u16 size fields of the containers reach usefully
+TexSides == {8, 16, 32, 64, 128, 256, 512, 1024}
 IsTex3DS(t) ==
   /\ t.fmt \in Formats3DS
-  /\ t.w \in {8, 16, 32, 64, 128} /\ t.h \in {8, 16, 32, 64, 128}
+  /\ t.w \in TexSides /\ t.h \in TexSides
   /\ Len(t.payload) = PayloadSize(t.fmt, t.w, t.h)
   /\ \A k \in 1..Len(t.name) : t.name[k] \in NameChars
   /\ t.pal = <<>>
@@ -159,18 +164,19 @@ CtpkLayouts(v, P) == { CtpkFile(v, p) : p \in P }
 CtpkPlacementOK(v, p) == p.lead <= p.gap /\ p.gap >= 0
 
 \* reference reader; result per texture [name (bytes), w, h, fmt, payload]
-CtpkWellFormed(f) ==
-  /\ Has(f, 0, 32)
+CtpkWellFormedN(f, L) ==
+  /\ HasN(L, 0, 32)
   /\ LET n == RdLE16(f, 6) IN
-       /\ Has(f, 32, 32 * n)
+       /\ HasN(L, 32, 32 * n)
        /\ f[12] < 128
        /\ \A i \in 0..(n - 1) :
             LET e == 32 + 32 * i IN
             /\ f[e + 4] < 128 /\ f[e + 12] < 128 /\ f[e + 16] < 128
-            /\ HasCStr(f, RdLE32(f, e))
+            /\ HasCStrN(f, L, RdLE32(f, e))
             /\ RdLE32(f, e + 12) \in Formats3DS
-            /\ Has(f, RdLE32(f, 8) + RdLE32(f, e + 8),
+            /\ HasN(L, RdLE32(f, 8) + RdLE32(f, e + 8),
                    PayloadSize(RdLE32(f, e + 12), RdLE16(f, e + 16), RdLE16(f, e + 18)))
+CtpkWellFormed(f) == CtpkWellFormedN(f, Len(f))
 CtpkRead(f) ==
   [i \in 1..RdLE16(f, 6) |->
      LET e   == 32 * i
@@ -264,24 +270,26 @@ BchPlacementOK(v, p) ==
   /\ p.compat \in {7, 34}
   /\ Len(p.secs) = 4 /\ { p.secs[k] : k \in 1..4 } = {"C", "S", "M", "R"}
 
-BchMagicOK(f) == Has(f, 0, 4) /\ Slice(f, 0, 4) = <<66, 67, 72, 0>>
-BchWellFormed(f) ==
-  /\ BchMagicOK(f)
-  /\ Has(f, 0, 60) /\ (f[5] > 32 => Has(f, 0, 68))
+BchMagicOKN(f, L) == L >= 4 /\ Slice(f, 0, 4) = <<66, 67, 72, 0>>
+BchMagicOK(f) == BchMagicOKN(f, Len(f))
+BchWellFormedN(f, L) ==
+  /\ BchMagicOKN(f, L)
+  /\ HasN(L, 0, 60) /\ (f[5] > 32 => HasN(L, 0, 68))
   /\ LET c == RdLE32(f, 8) IN
-     /\ Has(f, c, 44)
+     /\ HasN(L, c, 44)
      /\ LET tab == c + RdLE32(f, c + 36)
             n   == RdLE32(f, c + 40)
-        IN /\ Has(f, tab, 4 * n)
+        IN /\ HasN(L, tab, 4 * n)
            /\ \A i \in 0..(n - 1) :
                 LET st == c + RdLE32(f, tab + 4 * i) IN
-                /\ Has(f, st, 32)
-                /\ HasCStr(f, RdLE32(f, 12) + RdLE32(f, st + 28))
+                /\ HasN(L, st, 32)
+                /\ HasCStrN(f, L, RdLE32(f, 12) + RdLE32(f, st + 28))
                 /\ LET cb == RdLE32(f, 16) + RdLE32(f, st) IN
-                   /\ Has(f, cb, 28)
+                   /\ HasN(L, cb, 28)
                    /\ RdLE32(f, cb + 24) \in Formats3DS
-                   /\ Has(f, RdLE32(f, 20) + RdLE32(f, cb + 16),
+                   /\ HasN(L, RdLE32(f, 20) + RdLE32(f, cb + 16),
                           PayloadSize(RdLE32(f, cb + 24), RdLE16(f, cb + 2), RdLE16(f, cb)))
+BchWellFormed(f) == BchWellFormedN(f, Len(f))
 BchRead(f) ==
   LET c   == RdLE32(f, 8)
       tab == c + RdLE32(f, c + 36)
@@ -366,18 +374,20 @@ CgfxFile(v, p) ==
 CgfxLayouts(v, P) == { CgfxFile(v, p) : p \in P }
 CgfxPlacementOK(v, p) == p.ord \in 1..3
 
-CgfxMagicOK(f) == Has(f, 0, 4) /\ Slice(f, 0, 4) = <<67, 71, 70, 88>>
+CgfxMagicOKN(f, L) == L >= 4 /\ Slice(f, 0, 4) = <<67, 71, 70, 88>>
+CgfxMagicOK(f) == CgfxMagicOKN(f, Len(f))
 \* self-relative pointer stored at off
 SelfRel(f, off) == off + RdLE32(f, off)
-CgfxWellFormed(f) ==
-  /\ CgfxMagicOK(f) /\ Has(f, 0, 156)
+CgfxWellFormedN(f, L) ==
+  /\ CgfxMagicOKN(f, L) /\ HasN(L, 0, 156)
   /\ LET d == SelfRel(f, 40) IN
-     /\ Has(f, d, 28) /\ Has(f, d, 28 + 16 * RdLE32(f, d + 8))
+     /\ HasN(L, d, 28) /\ HasN(L, d, 28 + 16 * RdLE32(f, d + 8))
      /\ \A i \in 0..(RdLE32(f, d + 8) - 1) :
           LET o == SelfRel(f, d + 28 + 16 * i + 12) IN
-          /\ Has(f, o, 76)
-          /\ HasCStr(f, SelfRel(f, o + 12))
-          /\ Has(f, SelfRel(f, o + 72), RdLE32(f, o + 68))
+          /\ HasN(L, o, 76)
+          /\ HasCStrN(f, L, SelfRel(f, o + 12))
+          /\ HasN(L, SelfRel(f, o + 72), RdLE32(f, o + 68))
+CgfxWellFormed(f) == CgfxWellFormedN(f, Len(f))
 CgfxRead(f) ==
   LET d == SelfRel(f, 40)
   IN [i \in 1..RdLE32(f, d + 8) |->
@@ -441,19 +451,21 @@ TplCanon(v) == TplFile(v, TplCanonP)
 TplLayouts(v, P) == { TplFile(v, p) : p \in P }
 TplPlacementOK(v, p) == p.ord \in 1..3
 
-TplMagicOK(f) == Has(f, 0, 4) /\ Slice(f, 0, 4) = <<0, 32, 175, 48>>
-TplWellFormed(f) ==
-  /\ TplMagicOK(f) /\ Has(f, 0, 12)
+TplMagicOKN(f, L) == L >= 4 /\ Slice(f, 0, 4) = <<0, 32, 175, 48>>
+TplMagicOK(f) == TplMagicOKN(f, Len(f))
+TplWellFormedN(f, L) ==
+  /\ TplMagicOKN(f, L) /\ HasN(L, 0, 12)
   /\ LET n == RdBE32(f, 4)
          t == RdBE32(f, 8)
-     IN /\ Has(f, t, 8 * n)
+     IN /\ HasN(L, t, 8 * n)
         /\ \A i \in 0..(n - 1) :
              LET ih == RdBE32(f, t + 8 * i)
                  ph == RdBE32(f, t + 8 * i + 4)
-             IN /\ Has(f, ih, 36) /\ Has(f, ph, 12)
+             IN /\ HasN(L, ih, 36) /\ HasN(L, ph, 12)
                 /\ RdBE32(f, ih + 4) = 9 /\ RdBE32(f, ph + 4) = 2
-                /\ Has(f, RdBE32(f, ih + 8), CI8PayloadSize(RdBE16(f, ih + 2), RdBE16(f, ih)))
-                /\ Has(f, RdBE32(f, ph + 8), 2 * RdBE16(f, ph))
+                /\ HasN(L, RdBE32(f, ih + 8), CI8PayloadSize(RdBE16(f, ih + 2), RdBE16(f, ih)))
+                /\ HasN(L, RdBE32(f, ph + 8), 2 * RdBE16(f, ph))
+TplWellFormed(f) == TplWellFormedN(f, Len(f))
 TplRead(f) ==
   LET t == RdBE32(f, 8)
   IN [i \in 1..RdBE32(f, 4) |->
@@ -474,6 +486,9 @@ Extents(c, v, p) == CASE c = "ctpk" -> CtpkExtents(v, p) [] c = "bch" -> BchExte
 PlacementOK(c, v, p) == CASE c = "ctpk" -> CtpkPlacementOK(v, p) [] c = "bch" -> BchPlacementOK(v, p)
                           [] c = "cgfx" -> CgfxPlacementOK(v, p) [] c = "tpl" -> TplPlacementOK(v, p)
 ValueOK(c, v) == Len(v) \in 0..6 /\ \A i \in 1..Len(v) : IF c = "tpl" THEN IsTexTpl(v[i]) ELSE IsTex3DS(v[i])
+\* well-formedness of the prefix of length L of f
+WellFormedN(c, f, L) == CASE c = "ctpk" -> CtpkWellFormedN(f, L) [] c = "bch" -> BchWellFormedN(f, L)
+                          [] c = "cgfx" -> CgfxWellFormedN(f, L) [] c = "tpl" -> TplWellFormedN(f, L)
 WellFormed(c, f) == CASE c = "ctpk" -> CtpkWellFormed(f) [] c = "bch" -> BchWellFormed(f)
                       [] c = "cgfx" -> CgfxWellFormed(f) [] c = "tpl" -> TplWellFormed(f)
 RefRead(c, f) == CASE c = "ctpk" -> CtpkRead(f) [] c = "bch" -> BchRead(f)
